@@ -272,7 +272,15 @@ def run_case(case):
                        mask=mask, cfg=cfg, max_off=float(off.abs().max()))
             dg = torch.diagonal(TT)
             edge = zoo.nudge_edges(x[0], me)
-            if not (dg > 0).all() and torch.equal(edge, x[0]):
+            # an output sitting exactly on an end-point of the output box went through the library's clamp, whose autograd
+            # derivative at the bound is 0 in this torch (also when the map merely saturates into the end-point: derivative
+            # 1e-7 at 1e-9 from the bound rounds to the bound itself) - such elements are not judged
+            with torch.no_grad():
+                y0 = model(x[0][None], ci)[0][0].reshape(-1)[tflat]
+            on_edge = torch.zeros_like(dg, dtype=torch.bool)
+            for v, _d in me.get("edges", []):
+                on_edge |= (y0 == v)
+            if not (dg[~on_edge] > 0).all() and torch.equal(edge, x[0]):
                 r.viol("jac_diag", "%s transformed features are not strictly increasing (Jacobian diagonal <= 0)" % fam,
                        mask=mask, cfg=cfg, min_diag=float(dg.min()))
         except Exception as e:
